@@ -9,6 +9,9 @@ import json, os, re, struct, subprocess, sys, time, hashlib, traceback
 
 ROOT = os.path.dirname(os.path.dirname(os.path.abspath(__file__)))
 LEAN = os.path.join(ROOT, "lean")
+# VERIF_OUT redirects evidence/ and replays/ (used when trying seeded changes, so that the
+# committed evidence of the unchanged tree is not overwritten)
+OUT = os.environ.get("VERIF_OUT", ROOT)
 DRIVER = os.path.join(LEAN, ".lake", "build", "bin", "mdriver")
 ALLOWED_AXIOMS = {"propext", "Classical.choice", "Quot.sound"}
 FORBIDDEN = re.compile(r"\b(sorry|admit|native_decide|bv_decide|implemented_by|unsafe)\b|^axiom\s|maxHeartbeats\s+0\b", re.M)
@@ -221,9 +224,9 @@ class Ctx:
 
 
 def write_replay(ctx, kind, payload, idx):
-    os.makedirs(os.path.join(ROOT, "replays"), exist_ok=True)
+    os.makedirs(os.path.join(OUT, "replays"), exist_ok=True)
     rel = os.path.join("replays", f"{ctx.prop}-{ctx.tier}-{ctx.seed}-{idx}.json")
-    with open(os.path.join(ROOT, rel), "w") as f:
+    with open(os.path.join(OUT, rel), "w") as f:
         json.dump({"property": ctx.prop, "kind": kind, "seed": ctx.seed, "tier": ctx.tier, **payload},
                   f, indent=1, default=str)
     return rel
@@ -307,8 +310,8 @@ def finish(ctx, obligations, discharged, axioms, proof_failures, build_s, truste
         "wall_s": round(ctx.elapsed(), 2),
         "violations": violations,
     }
-    os.makedirs(os.path.join(ROOT, "evidence"), exist_ok=True)
-    with open(os.path.join(ROOT, "evidence", f"{ctx.prop}.json"), "w") as f:
+    os.makedirs(os.path.join(OUT, "evidence"), exist_ok=True)
+    with open(os.path.join(OUT, "evidence", f"{ctx.prop}.json"), "w") as f:
         json.dump(ev, f, indent=1, default=str)
     print(f"[{ctx.prop}] tier={ctx.tier} seed={ctx.seed} obligations={discharged}/{obligations} "
           f"evaluations={ctx.evaluations} nontrivial={len(ctx.nontrivial)} mismatches={len(ctx.mismatches)} "
